@@ -163,6 +163,11 @@ def check_weights(ck, dag):
             ck.violation("weight_factor_out_of_bounds", S_W, inp, expected=[lo, hi], got=wm.tolist(), oracle="min(1,exp(tau(E_T-E_est-cut))) <= w'/w <= max(1,exp(tau(E_T-E_est+cut)))")
         # compute_S directly, against the generated expression (finite local energies) and the bound (all)
         v2 = ck.rng.uniform(0, 50, size=nconf)
+        if it % 3 == 0:  # a walker on a node: the squared drift diverges, alone or together with the local energy
+            for k in range(nconf):
+                if ck.rng.random() < 0.6:
+                    v2[k] = [np.inf, 1e300, 1e160][int(ck.rng.integers(0, 3))]
+            inp = dict(inp, v2=v2.tolist())
         with np.errstate(all="ignore"):
             ok, S = ck.guarded(lambda: dmc.compute_S(e_trial, e_est, cut, v2, tstep, el1.copy(), 2), "compute_S", S_S, inp)
         if ok:
@@ -170,7 +175,7 @@ def check_weights(ck, dag):
                 ck.violation("S_out_of_bounds", S_S, inp, expected=[e_trial - e_est - cut, e_trial - e_est + cut], got=np.asarray(S).tolist())
             if dag is not None:
                 for k in range(nconf):
-                    if np.isfinite(el1[k]) and abs(abs(e_est - el1[k]) - cut) > 1e-9:
+                    if np.isfinite(el1[k]) and v2[k] < 1e100 and abs(abs(e_est - el1[k]) - cut) > 1e-9:  # (Python floats raise on overflow where numpy returns inf)
                         m = evalf(dag["dmc_compute_S"]["expr"], {"tau": tstep, "branchcut": cut, "e_est": e_est, "e_trial": e_trial, "eloc": float(el1[k]), "nelec": 2.0, "v2": float(v2[k])})
                         if abs(m - S[k]) > 1e-12 * max(1, abs(m)):
                             ck.correspondence_broken("translator validation: generated dmc_compute_S vs dmc.compute_S", json.dumps({"model": m, "impl": float(S[k])}))
